@@ -1055,11 +1055,10 @@ class Interp:
         if isinstance(s, ast.While):
             entries = self.truth(s.test, p)
         else:
-            it = self.ev(s.iter, p)
-            entries = []
-            for q, b in self.truth_value(it, p.clone()) if it.kind in ('coll', 'tuple', 'const') else [(p.clone(), True), (p.clone(), False)]:
-                entries.append((q, b))
-            if it.kind not in ('coll', 'tuple', 'const'):
+            it = self._iter_base(self.ev(s.iter, p))
+            if it.kind in ('coll', 'tuple', 'const'):
+                entries = list(self.truth_value(it, p.clone()))
+            else:
                 # iterating an opaque iterable: "non-empty" is an atom of the iterable
                 entries = self.atom(f'nonempty({it.key})', p)
         for q, b in entries:
@@ -1067,7 +1066,7 @@ class Interp:
                 out.extend(self.run_block(s.orelse, [q]) if s.orelse else [q])
                 continue
             if not isinstance(s, ast.While):
-                self.bind(s.target, sym(f'item({self.ev(s.iter, q).key})'), q)
+                self.bind(s.target, sym(f'item({self._iter_base(self.ev(s.iter, q)).key})'), q)
             q.loopdepth += 1
             for r in self.run_block(s.body, [q]):
                 r.loopdepth -= 1
@@ -1082,6 +1081,13 @@ class Interp:
                 else:
                     out.append(r)
         return out
+
+    @staticmethod
+    def _iter_base(v: V) -> V:
+        """list(x) / tuple(x) / sorted(x) iterate the elements of x: name the loop after x (a snapshot is still "every element of x")."""
+        while v.kind == 'coll' and v.data[0] == 'alias':
+            v = v.data[1][0]
+        return v
 
     def _havoc(self, p: Path, names: set, s: ast.AST, keep: bool = False) -> None:
         if keep:
